@@ -20,6 +20,19 @@ BAD_NUM = ['0', '-1', '1e300', '1e-300', 'nan', 'inf', '-inf', '-0.0', '1e30']
 NONFINITE = re.compile(r'(?<![A-Za-z])(nan|inf)(?![A-Za-z])', re.I)
 
 
+def stage_of(site):
+    """coarse stage of main() in which an exception surfaced -- deliberately independent of the exact statement text and
+    of the function that raised, so that a recorded finding keeps its identity across refactorings"""
+    t = site.replace(' ', '')
+    if 'as_mininec' in t or 'as_basic_input' in t or 'as_cmdline' in t or t.startswith('print('):
+        return 'output'
+    if 'm.f=' in t:
+        return 'set-frequency'
+    if 'compute' in t:
+        return 'solve'
+    return 'build'
+
+
 def run(argv):
     out, err = io.StringIO(), io.StringIO()
     res = {'kind': None}
@@ -40,8 +53,8 @@ def run(argv):
         deepest = [fr for fr in tb if '/mininec/' in fr.filename]
         where = '%s:%s' % (deepest[-1].name, (deepest[-1].line or '').strip()[:60]) if deepest else '?'
         res['kind'] = 'uncaught'
-        res['id'] = 'uncaught-%s@main: %s <- %s' % (e.__class__.__name__, (site or where)[:70], where)
-        res['detail'] = '%s: %s (raised in %s)' % (e.__class__.__name__, str(e)[:100], where)
+        res['id'] = 'uncaught-%s@%s' % (e.__class__.__name__, stage_of(site or where))
+        res['detail'] = '%s: %s (statement of main: %s; raised in %s)' % (e.__class__.__name__, str(e)[:100], (site or '?')[:70], where)
         return res
     so, se = out.getvalue(), err.getvalue()
     if rv == 23:
